@@ -100,15 +100,34 @@ class Taint:
         if isinstance(e, (ast.List, ast.Tuple)):
             r = CONST
             for x in e.elts:
-                r = join(r, self.of(f, x, at, depth + 1))
+                r = join(r, self.of(f, x.value if isinstance(x, ast.Starred) else x, at, depth + 1))
             return r
-        if isinstance(e, ast.ListComp):
-            return self.of(f, e.elt, at, depth + 1)
+        if isinstance(e, (ast.ListComp, ast.GeneratorExp, ast.SetComp)):
+            # the comprehension variable stands for an element of the iterable
+            env = getattr(self, "_compenv", None)
+            if env is None:
+                env = self._compenv = {}
+            saved = dict(env)
+            try:
+                for gen in e.generators:
+                    c_ = self.of(f, gen.iter, at, depth + 1)
+                    for x in ast.walk(gen.target):
+                        if isinstance(x, ast.Name):
+                            env[x.id] = c_
+                return self.of(f, e.elt, at, depth + 1)
+            finally:
+                env.clear()
+                env.update(saved)
         if isinstance(e, ast.Call):
             fn = e.func
             d = ctx.m.dotted(f.rel, fn) if isinstance(fn, (ast.Name, ast.Attribute)) else None
             if d == "re.escape":
                 return SAN
+            # map(re.escape, xs) / list(map(re.escape, xs)) / Starred unpacking of such a list
+            if isinstance(fn, ast.Name) and fn.id == "map" and len(e.args) == 2 and isinstance(e.args[0], (ast.Name, ast.Attribute)) and ctx.m.dotted(f.rel, e.args[0]) == "re.escape":
+                return SAN
+            if isinstance(fn, ast.Name) and fn.id in ("list", "tuple", "sorted", "set") and len(e.args) == 1:
+                return self.of(f, e.args[0], at, depth + 1)
             if _is_backslash_escape(e):
                 return SAN if self.mode == "template" else self.of(f, fn.value, at, depth + 1)
             if d in ("re.sub", "re.subn") and len(e.args) >= 3:
@@ -159,6 +178,8 @@ class Taint:
                 return r or CONST
             return TAINT
         if isinstance(e, ast.Name):
+            if e.id in getattr(self, "_compenv", {}):
+                return self._compenv[e.id]
             if self._is_function(f, e.id):
                 return CALLABLE
             key = (f.qual, e.id, id(at))
